@@ -18,8 +18,8 @@ import (
 	"container/heap"
 	"errors"
 	"fmt"
+	"github.com/echovault/sugardb/verifhook"
 	"slices"
-	"sync"
 	"time"
 )
 
@@ -32,16 +32,17 @@ type EntryLRU struct {
 type CacheLRU struct {
 	keys    map[string]bool
 	entries []*EntryLRU
-	Mutex   *sync.Mutex // Lock for retrieving unixTime
+	Mutex   *verifhook.Mutex // Lock for retrieving unixTime
 }
 
 func NewCacheLRU() *CacheLRU {
 	cache := CacheLRU{
 		keys:    make(map[string]bool),
 		entries: make([]*EntryLRU, 0),
-		Mutex:   &sync.Mutex{},
+		Mutex:   &verifhook.Mutex{},
 	}
 	heap.Init(&cache)
+	verifhook.NameLock(cache.Mutex, "cache.lru")
 	return &cache
 }
 
